@@ -13,6 +13,7 @@ import GoNeat.Proofs.WFMate
 import GoNeat.Proofs.WFPop
 import GoNeat.Proofs.WFMate2
 import GoNeat.Proofs.WFStep
+import GoNeat.Proofs.WFClose
 import GoNeat.Props.C04
 import GoNeat.Props.C05
 import GoNeat.Props.C06
@@ -80,9 +81,9 @@ theorem duplicate_wf (g : Genome W) (newId : Int) (h : WFT g) (hm : g.modules = 
   have hrefs : C06.RefsOk g := by
     refine ⟨h.wf.traitRefs, h.wf.endpoints, ?_, ?_⟩ <;> simp [hm]
   refine ⟨_, C06.duplicate_exact g newId hrefs, rfl, ?_, ?_, ?_⟩
-  · exact (SameSkel.wft (g := g) ⟨rfl, rfl, rfl⟩ h.wf.traitRefs h)
+  · exact (SameSkel.wft (g := g) ⟨rfl, rfl, rfl, rfl⟩ h.wf.traitRefs h)
   · exact Retains.refl g
-  · exact ⟨rfl, rfl, rfl⟩
+  · exact ⟨rfl, rfl, rfl, rfl⟩
 
 /-! ## the seven parametric mutators
 
@@ -359,7 +360,7 @@ theorem setEnabledAt_step (g : Genome W) (k : Nat) (b : Bool) (hr : TraitRefsOwn
     rcases mem_modify _ _ _ _ hy with h | ⟨z, hz, rfl⟩
     · exact ⟨y, h, rfl, rfl⟩
     · exact ⟨z, hz, rfl, rfl⟩
-  refine ⟨⟨skel_to_key _ _ (C05.modify_map_skel g.genes k b), rfl, rfl⟩, ⟨?_, hr.2⟩, hk⟩
+  refine ⟨⟨skel_to_key _ _ (C05.modify_map_skel g.genes k b), rfl, rfl, rfl⟩, ⟨?_, hr.2⟩, hk⟩
   intro y hy
   obtain ⟨z, hz, _, e⟩ := hk y hy
   rw [← e]; exact hr.1 z hz
@@ -916,6 +917,117 @@ theorem mutateAddNode_step (g g' : Genome W) (reg reg' : Reg W) (o : MutOpts W) 
               constructor
               · show h0.inn < reg.nextInn + 1; omega
               · show h0.inn < reg.nextInn + 1 + 1; omega
+
+/-! ## population-level closure, part 2: every operator keeps the pool invariant
+
+`Fits reg P g`: `g` is well-formed (`WFT`), non-modular, satisfies `RegInv reg`, its first gene is below every recorded
+number, and it is of the node lineage of, and shares its first gene with, every member of the pool `P`.
+`PoolOk reg P`: every member of `P` fits.  (The gene clause of `SameLineage` — one number, one link — is not needed
+for well-formedness; it is property C03.) -/
+
+theorem dup_closed {reg : Reg W} {P : List (Genome W)} {g d : Genome W} (id : Int) (hf : Fits reg P g)
+    (h : g.duplicate id = .ok d) : Fits reg P d := by
+  obtain ⟨d', hd', rfl, _, _, hs⟩ := duplicate_wf g id hf.wft hf.nomod
+  rw [hd'] at h
+  cases h
+  exact hf.skel hs (hs.wft hf.wft.wf.traitRefs hf.wft).wf.traitRefs
+
+theorem linkWeights_closed {reg : Reg W} {P : List (Genome W)} {g g' : Genome W} (power rate : W) (mt : WeightMutator)
+    (rs rs' : List Nat) (hf : Fits reg P g) (h : mutateLinkWeights g power rate mt rs = .ok (g', rs')) : Fits reg P g' := by
+  obtain ⟨w, _, _, hs⟩ := mutateLinkWeights_wf g g' power rate mt rs rs' hf.wft h
+  exact hf.skel hs w.wf.traitRefs
+
+theorem nonstructural_closed {reg : Reg W} {P : List (Genome W)} {g g' : Genome W} (o : MutOpts W)
+    (rs rs' : List Nat) (hf : Fits reg P g) (h : mutateAllNonstructural g o rs = .ok (g', rs')) : Fits reg P g' := by
+  obtain ⟨w, _, _, hs⟩ := mutateAllNonstructural_wf g g' o rs rs' hf.wft h
+  exact hf.skel hs w.wf.traitRefs
+
+theorem addNode_closed {reg reg' : Reg W} {P : List (Genome W)} {g g' : Genome W} (o : MutOpts W) (rs rs' : List Nat)
+    (b : Bool) (hP : PoolOk reg P) (hf : Fits reg P g) (h : mutateAddNode g reg o rs = .ok ((g', reg', b), rs')) :
+    Fits reg' P g' ∧ PoolOk reg' P := by
+  obtain ⟨w, _, i⟩ := mutateAddNode_wf g g' reg reg' o rs rs' b hf.wft hf.rinv h
+  exact struct_closed hP hf (mutateAddNode_step g g' reg reg' o rs rs' b hf.wft hf.rinv hf.hbr h) w i
+
+theorem addLink_closed {reg reg' : Reg W} {P : List (Genome W)} {g g' : Genome W} (o : MutOpts W) (rs rs' : List Nat)
+    (b : Bool) (hP : PoolOk reg P) (hf : Fits reg P g) (h : mutateAddLink g reg o rs = .ok ((g', reg', b), rs')) :
+    Fits reg' P g' ∧ PoolOk reg' P := by
+  obtain ⟨w, _, i⟩ := mutateAddLink_wf g g' reg reg' o rs rs' b hf.wft hf.rinv h
+  exact struct_closed hP hf (mutateAddLink_step g g' reg reg' o rs rs' b hf.wft hf.rinv hf.hbr h) w i
+
+theorem connectSensors_closed {reg reg' : Reg W} {P : List (Genome W)} {g g' : Genome W} (rs rs' : List Nat)
+    (b : Bool) (hP : PoolOk reg P) (hf : Fits reg P g) (h : mutateConnectSensors g reg rs = .ok ((g', reg', b), rs')) :
+    Fits reg' P g' ∧ PoolOk reg' P := by
+  obtain ⟨w, _, i⟩ := mutateConnectSensors_wf g g' reg reg' rs rs' b hf.wft hf.rinv h
+  exact struct_closed hP hf (mutateConnectSensors_step g g' reg reg' rs rs' b hf.wft hf.rinv hf.hbr h) w i
+
+/-- the mutation chain applied to a fresh baby genome (`Species.reproduce`) -/
+theorem mutateBaby_closed {reg reg' : Reg W} {P : List (Genome W)} {g g' : Genome W} (o : EpochOpts W)
+    (rs rs' : List Nat) (b : Bool) (hP : PoolOk reg P) (hf : Fits reg P g)
+    (h : mutateBaby o g reg rs = .ok ((g', reg', b), rs')) : Fits reg' P g' ∧ PoolOk reg' P := by
+  unfold mutateBaby at h
+  split at h
+  · cases h
+  · rename_i f1 rs1 _
+    simp only at h
+    -- the structural stage
+    have hstruct : ∀ (g1 : Genome W) (reg1 : Reg W) (b1 : Bool) (rs2 : List Nat),
+        (if lt f1 o.mutateAddNodeProb then
+            match mutateAddNode g reg o.mopts rs1 with
+            | .error e => .error e
+            | .ok ((g', reg', _), rs2) => .ok ((g', reg', true), rs2)
+          else
+            match Rand.float64 (W := W) rs1 with
+            | .error e => .error e
+            | .ok (f2, rs2) =>
+              if lt f2 o.mutateAddLinkProb then
+                match mutateAddLink g reg o.mopts rs2 with
+                | .error e => .error e
+                | .ok ((g', reg', _), rs3) => .ok ((g', reg', true), rs3)
+              else
+                match Rand.float64 (W := W) rs2 with
+                | .error e => .error e
+                | .ok (f3, rs3) =>
+                  if lt f3 o.mutateConnectSensors then mutateConnectSensors g reg rs3
+                  else .ok ((g, reg, false), rs3)) = (.ok ((g1, reg1, b1), rs2) : R (Genome W × Reg W × Bool)) →
+        Fits reg1 P g1 ∧ PoolOk reg1 P := by
+      intro g1 reg1 b1 rs2 hs
+      split at hs
+      · split at hs
+        · cases hs
+        · rename_i ga rega ba rsa ha
+          simp only [Except.ok.injEq, Prod.mk.injEq] at hs
+          obtain ⟨⟨rfl, rfl, _⟩, _⟩ := hs
+          exact addNode_closed o.mopts rs1 rsa ba hP hf ha
+      · split at hs
+        · cases hs
+        · split at hs
+          · split at hs
+            · cases hs
+            · rename_i ga rega ba rsa ha
+              simp only [Except.ok.injEq, Prod.mk.injEq] at hs
+              obtain ⟨⟨rfl, rfl, _⟩, _⟩ := hs
+              exact addLink_closed o.mopts _ rsa ba hP hf ha
+          · split at hs
+            · cases hs
+            · split at hs
+              · exact connectSensors_closed _ rs2 b1 hP hf hs
+              · simp only [Except.ok.injEq, Prod.mk.injEq] at hs
+                obtain ⟨⟨rfl, rfl, _⟩, _⟩ := hs
+                exact ⟨hf, hP⟩
+    split at h
+    · cases h
+    · rename_i g1 reg1 rs2 hs
+      simp only [Except.ok.injEq, Prod.mk.injEq] at h
+      obtain ⟨⟨rfl, rfl, _⟩, _⟩ := h
+      exact hstruct _ _ _ _ hs
+    · rename_i g1 reg1 rs2 hs
+      obtain ⟨f, p⟩ := hstruct _ _ _ _ hs
+      split at h
+      · cases h
+      · rename_i g2 rs3 hns
+        simp only [Except.ok.injEq, Prod.mk.injEq] at h
+        obtain ⟨⟨rfl, rfl, _⟩, _⟩ := h
+        exact ⟨nonstructural_closed o.mopts rs2 rs3 f hns, p⟩
 
 /-! ## known finding K1 (machine-checked witness) and non-vacuity of the hypotheses -/
 
